@@ -495,6 +495,7 @@ func checkC15(p *Program, r *Report) {
 		}
 	}
 	r.Floor("C15.fresh", 12)
+	c15overlap(p, r, pkg, kt, Z, sliceFields)
 
 	// ---- C15.zero
 	recv := zeroFn.Params[0]
@@ -706,4 +707,215 @@ func allByteFields(st *types.Struct) map[string]bool {
 		}
 	}
 	return out
+}
+
+// c15overlap (C15.fresh, continued): a buffer that Zero wipes (class Z) and a buffer that is handed on by reference
+// to derived keys (class S: the version bytes) must not overlap inside one key.  The parser carves several fields out
+// of one decoded payload; that is fine as long as the windows are disjoint.  For every key built in the package — a
+// call of a constructor that stores its parameters into fields, plus field stores on its result — the Z windows and
+// the S windows cut from the same base slice must have constant, disjoint bounds.
+func c15overlap(p *Program, r *Report, pkg *ssa.Package, kt *ssa.Type, Z map[string]bool, byteFields map[string]bool) {
+	// constructors: param index → field
+	type ctorMap map[int]string
+	ctors := map[*ssa.Function]ctorMap{}
+	for _, fn := range p.Funcs {
+		if fn.Pkg != pkg || fn.Parent() != nil {
+			continue
+		}
+		cm := ctorMap{}
+		for _, b := range fn.Blocks {
+			for _, in := range b.Instrs {
+				st, ok := in.(*ssa.Store)
+				if !ok {
+					continue
+				}
+				fa, ok := st.Addr.(*ssa.FieldAddr)
+				if !ok || !byteFields[fieldOfAddr(fa).Name()] {
+					continue
+				}
+				if _, fresh := canonRoot(fa.X).(*ssa.Alloc); !fresh {
+					continue
+				}
+				if pi := paramIndex(fn, st.Val); pi >= 0 {
+					cm[pi] = fieldOfAddr(fa).Name()
+				}
+			}
+		}
+		if len(cm) >= 2 {
+			ctors[fn] = cm
+		}
+	}
+	// window of a value inside its base slice: constant [lo, hi) where known
+	type window struct {
+		base   ssa.Value
+		lo, hi int64 // hi < 0: unknown / to the end
+		known  bool
+	}
+	var win func(v ssa.Value, depth int) window
+	win = func(v ssa.Value, depth int) window {
+		if sl, ok := v.(*ssa.Slice); ok && depth < 6 {
+			in := win(sl.X, depth+1)
+			lo, hi := int64(0), int64(-1)
+			known := in.known
+			if sl.Low != nil {
+				if k, ok := constInt(sl.Low); ok {
+					lo = k
+				} else {
+					known = false
+				}
+			}
+			if sl.High != nil {
+				if k, ok := constInt(sl.High); ok {
+					hi = k
+				} else {
+					hi = -1 // some prefix: still inside [lo, end)
+				}
+			}
+			out := window{base: in.base, lo: in.lo + lo, hi: -1, known: known}
+			if hi >= 0 {
+				out.hi = in.lo + hi
+			} else if in.hi >= 0 {
+				out.hi = in.hi
+			}
+			return out
+		}
+		return window{base: v, lo: 0, hi: -1, known: true}
+	}
+	n := 0
+	for _, fn := range p.Funcs {
+		if fn.Pkg != pkg {
+			continue
+		}
+		for _, b := range fn.Blocks {
+			for _, in := range b.Instrs {
+				c, ok := in.(*ssa.Call)
+				if !ok {
+					continue
+				}
+				cm := ctors[c.Call.StaticCallee()]
+				if cm == nil {
+					continue
+				}
+				fieldVal := map[string]ssa.Value{}
+				for pi, f := range cm {
+					if pi < len(c.Call.Args) {
+						fieldVal[f] = c.Call.Args[pi]
+					}
+				}
+				// later stores into fields of the constructed key
+				for _, bb := range fn.Blocks {
+					for _, ii := range bb.Instrs {
+						if st, ok := ii.(*ssa.Store); ok {
+							if fa, ok := st.Addr.(*ssa.FieldAddr); ok && canonRoot(fa.X) == ssa.Value(c) && byteFields[fieldOfAddr(fa).Name()] {
+								fieldVal[fieldOfAddr(fa).Name()] = st.Val
+							}
+						}
+					}
+				}
+				var zs, ss []string
+				for f := range fieldVal {
+					if Z[f] {
+						zs = append(zs, f)
+					} else {
+						ss = append(ss, f)
+					}
+				}
+				sort.Strings(zs)
+				sort.Strings(ss)
+				for _, sf := range ss {
+					ws := win(fieldVal[sf], 0)
+					if _, isConst := ws.base.(*ssa.Const); isConst {
+						continue
+					}
+					for _, zf := range zs {
+						wz := win(fieldVal[zf], 0)
+						if wz.base != ws.base {
+							continue
+						}
+						n++
+						disjoint := ws.known && wz.known && ((ws.hi >= 0 && ws.hi <= wz.lo) || (wz.hi >= 0 && wz.hi <= ws.lo))
+						r.Add("C15.fresh", FnName(fn), fmt.Sprintf("the wiped buffer %s and the shared buffer %s of the key built here do not overlap", zf, sf), c.Pos(), disjoint,
+							fmt.Sprintf("%s = base[%d:%s], %s = base[%d:%s] of the same slice %s", zf, wz.lo, hiStr(wz.hi), sf, ws.lo, hiStr(ws.hi), exprString(ws.base)))
+					}
+				}
+			}
+		}
+	}
+	_ = n
+}
+
+func hiStr(h int64) string {
+	if h < 0 {
+		return "end"
+	}
+	return fmt.Sprint(h)
+}
+
+// sharedKeyBytesRule: the []byte fields of ExtendedKey that Zero does not wipe are handed from key to key by reference
+// (the version bytes: from the network parameters to the master key, from parent to child, from key to neutered key).
+// Nothing may write their bytes in place: it would relabel every key sharing them, and the package-level network
+// parameters with them.  (C15.fields states this for key independence; C04 needs it because the serialised string of
+// every derived key starts with those bytes.)
+func sharedKeyBytesRule(p *Program, r *Report, rule string) {
+	pkg := p.Pkg("hdkeychain")
+	if pkg == nil {
+		r.Unresolved(rule, "package hdkeychain")
+		return
+	}
+	kt, _ := pkg.Members["ExtendedKey"].(*ssa.Type)
+	zeroFn := p.Func("hdkeychain", "(*ExtendedKey).Zero")
+	if kt == nil || zeroFn == nil {
+		r.Unresolved(rule, "hdkeychain.ExtendedKey / Zero")
+		return
+	}
+	st, ok := kt.Type().Underlying().(*types.Struct)
+	if !ok {
+		r.Unresolved(rule, "ExtendedKey is not a struct")
+		return
+	}
+	ef := NewEffects(p)
+	sliceFields := map[string]bool{}
+	var names []string
+	for i := 0; i < st.NumFields(); i++ {
+		f := st.Field(i)
+		if sl, ok := f.Type().Underlying().(*types.Slice); ok {
+			if b, ok := sl.Elem().Underlying().(*types.Basic); ok && b.Kind() == types.Uint8 {
+				sliceFields[f.Name()] = true
+				names = append(names, f.Name())
+			}
+		}
+	}
+	Z := map[string]bool{}
+	for _, e := range ef.WriteEffects(zeroFn) {
+		if e.Root.Kind == rkParam && e.Root.Idx == 0 {
+			if f, _, ok := bufferOf(zeroFn, e.Root, kt.Type(), sliceFields); ok {
+				Z[f] = true
+			}
+		}
+	}
+	n := 0
+	for _, f := range names {
+		if Z[f] {
+			continue
+		}
+		n++
+		var bad []string
+		for _, fn := range p.Funcs {
+			for _, e := range ef.WriteEffects(fn) {
+				if g, _, ok := bufferOf(fn, e.Root, kt.Type(), map[string]bool{f: true}); ok && g == f && e.In == fn {
+					bad = append(bad, FnName(fn)+": "+e.What+" at "+p.Pos(e.Pos))
+				}
+			}
+		}
+		sort.Strings(bad)
+		bad = dedup(bad)
+		how := "no store, copy or append targets its bytes in any function"
+		if len(bad) > 0 {
+			how = strings.Join(bad, "; ")
+		}
+		r.Add(rule, "hdkeychain.ExtendedKey", "the bytes of field "+f+" (passed from key to key by reference) are never written in place", kt.Pos(), len(bad) == 0, how)
+	}
+	if n == 0 {
+		r.Unresolved(rule, "a []byte field of ExtendedKey that is shared by reference")
+	}
 }
